@@ -57,7 +57,7 @@ prop('C01', 'every mutator implements bounded-deque semantics', stubs=[ROT_STUB]
 prop('C02', 'single-element insertion never loses an element')
 prop('C03', 'every element dropped exactly once, never while reachable', thorough_reach=False, stubs=[ROT_STUB], code_failures_count=False)
 C04_E2 = ['TRUNCATE_BACK', 'TRUNCATE_FRONT', 'CLEAR', 'EXTEND_FROM_SLICE', 'FILL_WITH', 'CLONE_FROM', 'DRAIN_DROP']
-prop('C04', 'unoccupied storage is never observed', thorough_reach=False, code_failures_count=False, jobs=10, stubs=[ROT_STUB],
+prop('C04', 'unoccupied storage is never observed', thorough_reach=False, code_failures_count=False, jobs=12, stubs=[ROT_STUB],
      bounds=dict(E1=E1_BOUNDS, E2=E2_BOUNDS),
      # after a caught panic, too, no operation may expose or destroy a slot that holds no live element: the E2
      # post-condition "visible element is live" / "no destructor on a dead slot" at reduced capacities
